@@ -215,8 +215,13 @@ struct C05 : public Driver {
                         Json p2 = plan; if (docFaulted) { Json o2 = Json::object(); for (auto& kv : p2.o) if (kv.first != "fault") o2[kv.first] = kv.second; p2 = o2; }
                         Json p3 = p2; p2["doc"] = doc.substr(0, a) + doc.substr(b + 2); p3["doc"] = doc.substr(0, a) + "<!DOCTYPE doc []>" + doc.substr(b + 2); Result scratch;
                         FormOut r2 = runForm(p2, rf, scratch), o2 = runForm(p2, f, scratch), r3 = runForm(p3, rf, scratch), o3 = runForm(p3, f, scratch);
-                        const bool agreeWithout = r2.status == 0 && o2.status == 0 && !r2.threw && !o2.threw && canonOf(r2) == canonOf(o2);
-                        const bool differWithEmpty = r3.status == 0 && o3.status == 0 && !r3.threw && !o3.threw && canonOf(r3) != canonOf(o3);
+                        // the experiment looks at the observation record in which the first difference lies, not at the whole tree: another recorded
+                        // deviation (the namespace axis) may make the trees differ elsewhere in all variants
+                        size_t k0 = 0; while (k0 < c.size() && k0 < refCanon.size() && c[k0] == refCanon[k0]) ++k0;
+                        std::string marker; { size_t q = refCanon.rfind("E{|o|^f=", k0); if (q != std::string::npos) { size_t e = refCanon.find("^n=", q); e = e == std::string::npos ? e : refCanon.find(';', e); if (e != std::string::npos) marker = refCanon.substr(q, e - q + 1); } }
+                        auto record = [&](const std::string& cn) -> std::string { if (marker.empty()) return cn; size_t q = cn.find(marker); if (q == std::string::npos) return std::string(); size_t e = cn.find("E{|o|^f=", q + marker.size()); return cn.substr(q, e == std::string::npos ? std::string::npos : e - q); };
+                        const bool agreeWithout = r2.status == 0 && o2.status == 0 && !r2.threw && !o2.threw && record(canonOf(r2)) == record(canonOf(o2));
+                        const bool differWithEmpty = r3.status == 0 && o3.status == 0 && !r3.threw && !o3.threw && record(canonOf(r3)) != record(canonOf(o3));
                         if (agreeWithout && differWithEmpty) { feat = "doctype-node"; res.count("attributed-by-difference:doctype-node"); }
                     }
                 }
